@@ -41,6 +41,7 @@ def run_one(name, patch, props):
 
 def main():
     which = sys.argv[1] if len(sys.argv) > 1 else 'harmless'
+    only = sys.argv[2] if len(sys.argv) > 2 else ''
     jobs = []
     if which in ('harmless', 'all'):
         hd = os.path.join(VERIF, 'mutants', 'harmless')
@@ -51,6 +52,8 @@ def main():
     if which in ('seeded', 'all'):
         sd = os.path.join(VERIF, 'seeded')
         for n in sorted(os.listdir(sd)):
+            if only not in n:
+                continue
             meta = json.load(open(os.path.join(sd, n, 'meta.json')))
             jobs.append((n, os.path.join(sd, n, 'patch.diff'), [meta['property']], 1))
     bad = 0
